@@ -261,6 +261,22 @@ def shrink_decl(tools, t, want):
     return G.shrink(t, fails, max_steps=250)
 
 
+def member_transitions(t):
+    """adjacent member-kind pairs inside structs: the case split of the packer proofs (walk_rr/br/rb/bb,
+    zero-width at position 0 or later): R regular, B bit-field, Z zero-width, F flexible array, ^ start"""
+    out = []
+    for x in G.walk_types(t):
+        if x[0] == 's':
+            prev = '^'
+            for m in x[1]:
+                k = 'R' if m[0] in 'no' else ('Z' if m[1] == 0 else 'B')
+                if m[0] == 'n' and m[1][0] == 'x':
+                    k = 'F'
+                out.append(prev + k)
+                prev = k
+    return out
+
+
 def layout_part(chk, tools, decls, label):
     res, info = tools.layout(decls)
     bad = {}
@@ -275,6 +291,8 @@ def layout_part(chk, tools, decls, label):
         for f in sorted(fs):
             chk.dist('decl_features', f)
         chk.dist('decl_nodes', min(60, G.size_of(t) // 10 * 10))
+        for tr in member_transitions(t):
+            chk.dist('struct_member_transitions', tr)
         if v != 'ok':
             bad.setdefault(v, []).append((t, r))
     chk.log('%s: %d declarations, verdicts %s' % (label, len(decls), {k: len(v) for k, v in bad.items()} or 'all ok'))
